@@ -553,6 +553,8 @@ class Interp:
             ctx.assume(s >= 0)
             ctx.assume(s * s == v)
             return s
+        if isinstance(base, F) and base.denominator == 1:
+            base = int(base)
         if isinstance(base, int) and not isinstance(base, bool):
             k = ctx.pick(ex) if is_z3(ex) else ex
             if not isinstance(k, int):
@@ -600,6 +602,19 @@ class Interp:
             elif not ctx.branch(to_term(rv) != 0):
                 raise PyRaise("ZeroDivisionError")
             return to_real(lv) / to_real(rv)
+        if isinstance(op, ast.Mult) and (isinstance(l, SymReal) != isinstance(r, SymReal)):
+            sr, c = (l, r) if isinstance(l, SymReal) else (r, l)
+            if isinstance(c, (int, F)) and c > 0:
+                fr, kk = F(c), 0
+                while fr >= 10 and fr % 10 == 0:
+                    fr /= 10
+                    kk += 1
+                while fr < 1 and fr.numerator == 1 and fr.denominator % 10 == 0:
+                    fr *= 10
+                    kk -= 1
+                if fr == 1:
+                    return SymReal(sr.t * p10(kk), sr.dec + kk, sr.sign)
+            raise EncodingError("SymReal multiplied by something that is not a power of ten")
         l, r = num(l), num(r)
         if isinstance(op, ast.Add):
             return arith(l, r, lambda a, b: a + b)
@@ -801,6 +816,20 @@ def arith(l, r, f):
     return f(a, b)
 
 
+def b_float(I, ctx, v):
+    """float("d.dddddd") of the mantissa string of a '%e' rendering: the value rounded to p+1 significant
+    figures, a real in [1, 10) (or 0) with the sign of the original"""
+    if isinstance(v, Mant):
+        sci = v.sci
+        t = z3.ToReal(sci.digits) / p10(sci.p)
+        return SymReal(t if sci.sign > 0 else -t, 0, sci.sign)
+    if isinstance(v, (int, F)):
+        return F(v)
+    if isinstance(v, SymReal) or is_real(v):
+        return v
+    raise EncodingError("float() of %r" % (v,))
+
+
 def b_int(I, ctx, v):
     if isinstance(v, ExpStr):
         return v.e
@@ -882,7 +911,7 @@ MODULES = {"os", "math", "np", "numpy"}
 
 BUILTINS = {
     "os.path.join": lambda I, ctx, *a: ("path",) + tuple(a),
-    "int": b_int, "min": b_minmax(True), "max": b_minmax(False), "abs": b_abs,
+    "float": b_float, "int": b_int, "min": b_minmax(True), "max": b_minmax(False), "abs": b_abs,
     "isinstance": b_isinstance, "divmod": b_divmod, "math.ceil": b_ceil, "len": b_len,
     "range": b_range, "zip": lambda I, ctx, *a: list(zip(*a)), "enumerate": lambda I, ctx, a: list(enumerate(a)), "tuple": lambda I, ctx, v=(): tuple(v), "list": lambda I, ctx, v=(): list(v),
 }
